@@ -298,6 +298,43 @@ def evaluate(ctx, cases, tag):
     return rc, log, mrc, merr, per, dt
 
 
+
+def vm_sample(ctx, per):
+    """Thorough tier: a few real first flights evaluated by the grammar INSIDE Coq (vm_compute)."""
+    from props.c06 import coq_bytes
+    src = ['From Coq Require Import NArith List.', 'From Cloak Require Import Model.HelloGrammar.', 'Import ListNotations.']
+    n = 0
+    seen = set()
+    for r in per:
+        if r.get('missing') or not r.get('conns') or r['problems'] or r['diffs'] or r['meta']['browser'] in seen:
+            continue
+        seen.add(r['meta']['browser'])
+        g = r['g']
+        c2s, s2c = unhex(g['c2s0']), unhex(g['s2c0'])
+        hello = c2s[:5 + int.from_bytes(c2s[3:5], 'big')]
+        ws = [int(x) for x in g['w0'].split(',')]
+        flight = s2c[:ws[0]]
+        name = bytes.fromhex(r['conns'][0]['pc'].split()[1])
+        src.append('Definition a%d := Eval vm_compute in wf_client_hello %s %s.' % (n, coq_bytes(name.hex()), coq_bytes(hello.hex())))
+        src.append('Definition b%d := Eval vm_compute in match parse_server_flight %s with Some f => g_bytes_eqb (sf_sid f) %s | None => false end.' %
+                   (n, coq_bytes(flight.hex()), coq_bytes(r['conns'][0]['pc'].split()[3])))
+        src.append('Print a%d. Print b%d.' % (n, n))
+        n += 1
+        if n >= 3:
+            break
+    if n == 0:
+        return []
+    path = '%s/vmsample.v' % ctx.work
+    open(path, 'w').write('\n'.join(src) + '\n')
+    rc, out, dt = vlib.sh(['coqc', '-Q', vlib.COQ, 'Cloak', '-o', path + 'o', path], cwd=ctx.work, timeout=900)
+    if rc != 0:
+        return [('vm_compute sample of the C10 grammar failed to evaluate', out[-1500:])]
+    if out.count('= true') != 2 * n:
+        return [('vm_compute sample: the grammar inside Coq rejects a real first flight the extracted grammar accepts', out[-1500:])]
+    ctx.notes.append('vm_compute sample: %d real ClientHellos and server flights accepted by the grammar inside Coq in %.0f s' % (n, dt))
+    return []
+
+
 def correspondence(ctx, verdict, pr):
     res = dict(broken=[])
     cases = []
@@ -345,6 +382,8 @@ def correspondence(ctx, verdict, pr):
                 firstdiff = r
     if missing and rc == 0:
         res['broken'].append(('Go driver produced no output for %d cases' % missing, ''))
+    if not ctx.quick() and rc == 0 and mrc == 0:
+        res['broken'] += vm_sample(ctx, per)
     if firstdiff is not None and rc == 0:
         res['broken'].append(('grammar HelloGrammar.v / writers Auth.v vs the wire image of the real code: %d of %d cases differ' % (ndiff, len(cases)),
                               'smallest differing case: %s\n%s' % (firstdiff['line'], '\n'.join(firstdiff['diffs'][:6]))))
